@@ -28,6 +28,11 @@ ASSUMPTIONS = ["order windows lie on step boundaries", "HiGHS milp (presolve off
 @st.composite
 def _strategy(draw):
     g = draw(gen.grids(min_T=2, max_T=12))
+    if draw(st.integers(0, 7)) == 0:
+        # steps of unequal length with equal first and last step: daily steps around a daylight-saving switch
+        tz, date = draw(st.sampled_from([("CET", "2021-03-26"), ("CET", "2021-10-29"), ("Europe/London", "2021-10-29"),
+                                         ("America/New_York", "2021-03-12"), ("America/New_York", "2021-11-05")]))
+        g = {"start": date + " 00:00", "T": draw(st.integers(4, 8)), "freq": "d", "mtu": draw(st.sampled_from(["h", "d"])), "tz": tz}
     nn = draw(st.integers(1, 2))
     nodes = ["n%d" % i for i in range(nn)]
     prices = {"p0": draw(gen.price_series(g["T"])), "p1": draw(gen.price_series(g["T"]))}
